@@ -5,6 +5,7 @@ Every sequence of events over
    s  datapoint arrives (sendDatapoint)          h  self-metric arrives (sendHighPriorityDatapoint)
    c  connection made                            l  connection lost        f  connect failed
    p  transport paused                           r  transport resumed      t  one timer round
+   x  orderly stop requested (disconnect(); at most once, further events follow)
 (optionally ending in an orderly stop) up to a length bound is run, for a grid of queue sizes, batch
 sizes, flow control on/off, dynamic router on/off and both client protocols.  After every event a
 reference deque is compared with the real queue; at the end all timers are fired and the
@@ -98,7 +99,7 @@ class Transport(object):
     pass
 
   def loseConnection(self):
-    self.closes.append(len(self.factory.queue))
+    self.closes.append((len(self.factory.queue), bool(getattr(self.factory, '_stop_requested', False))))
 
   def write(self, data):
     self.written.append(data)
@@ -240,6 +241,11 @@ def run_sequence(C, cfg, seq, stop):
         p.resumeProducing()
     elif ev == 't':
       C.reactor.advance(0.001)
+    elif ev == 'x':
+      if getattr(f, '_stop_requested', False):
+        return False
+      f._stop_requested = True
+      f.disconnect()
     if list(f.queue) != list(ref):
       raise Fail('order_exactly_once', 'after event %r the queue is %r; accepted and not yet written / re-routed, in order: %r' % (ev, list(f.queue), list(ref)))
     return True
@@ -249,6 +255,9 @@ def run_sequence(C, cfg, seq, stop):
       if not step(ev):
         return 'skip'
     if stop:
+      if getattr(f, '_stop_requested', False):
+        return 'skip'
+      f._stop_requested = True
       f.disconnect()
     for _ in range(60):
       C.reactor.advance(1.0)
@@ -256,8 +265,8 @@ def run_sequence(C, cfg, seq, stop):
       raise Fail('order_exactly_once', 'at quiescence the queue is %r; accepted and not yet written / re-routed: %r' % (list(f.queue), list(ref)))
     p = st['p']
     connected = p is not None and p.connected and f.connectedProtocol is p
-    if stop and not cfg.get('ratio') and any(n != 0 for n in closes):     # (a quality reset also closes the connection)
-      raise Fail('stop_after_drain', 'orderly stop closed the connection with %r datapoints still queued' % ([n for n in closes if n],))
+    if not cfg.get('ratio') and any(n != 0 for (n, after_stop) in closes if after_stop):     # (a quality reset also closes the connection)
+      raise Fail('stop_after_drain', 'after the orderly stop was requested a connection was closed with %r datapoints still queued' % ([n for (n, a) in closes if n and a],))
     if connected and not p.paused and len(f.queue) > 0:
       raise Fail('delivered_at_quiescence', 'connected, not paused, all timers fired, but %d datapoints stay queued' % len(f.queue))
     if sig['full'] and len(f.queue) < low:
@@ -292,7 +301,7 @@ def work(job):
   C = configure(cfg)
   evals = 0
   fails = {}
-  alphabet = 'shclfprt'
+  alphabet = 'shclfprtx'      # x: orderly stop requested (at most once; events go on afterwards)
 
   def record(seq, stop, r):
     if r and r != 'skip' and (only is None or r[0] in only) and r[0] not in fails:
@@ -307,7 +316,7 @@ def work(job):
         record(seq, stop, r)
   rnd = random.Random('%s|%s' % (seed, sorted(cfg.items())))
   for _ in range(nrandom):
-    seq = [rnd.choice('sssshclfprtt') for _ in range(rnd.randint(maxlen + 1, 30))]
+    seq = [rnd.choice('sssshclfprttx') for _ in range(rnd.randint(maxlen + 1, 30))]
     # drop the events that are not enabled instead of skipping the whole sequence
     r = None
     kept = []
